@@ -68,6 +68,45 @@ func targets(s *Snap) map[string]*big.Rat {
 	return out
 }
 
+// targetsCountingDeletedRecords is what the rebalancing computes once an asset's share total counts validator
+// records that were deleted (open finding C10-target-counts-shares-of-removed-validator): each bonded validator's
+// shares are divided by the asset total minus the shares of the non-bonded records that still exist.
+func targetsCountingDeletedRecords(s *Snap) map[string]*big.Rat {
+	native := nativeBonded(s)
+	out := map[string]*big.Rat{}
+	for _, d := range s.AssetOrder {
+		a := s.Assets[d]
+		if s.Time.Before(a.RewardStartTime) {
+			continue
+		}
+		den := ratDec(a.TotalValidatorShares)
+		for _, v := range s.ValOrder {
+			if sv, ok := s.StVals[v]; !ok || !sv.IsBonded() {
+				den = rsub(den, ratDec(decCoinsAmount(s.ValInfos[v].ValidatorShares, d)))
+			}
+		}
+		if den.Sign() <= 0 {
+			continue
+		}
+		for _, v := range s.ValOrder {
+			sv, ok := s.StVals[v]
+			if !ok || !sv.IsBonded() {
+				continue
+			}
+			vs := ratDec(decCoinsAmount(s.ValInfos[v].ValidatorShares, d))
+			if vs.Sign() <= 0 {
+				continue
+			}
+			cur, ok := out[v]
+			if !ok {
+				cur = new(big.Rat)
+			}
+			out[v] = radd(cur, rmul(rmul(ratDec(a.RewardWeight), native), rquo(vs, den)))
+		}
+	}
+	return out
+}
+
 func (m *monC10) triggered(r *Runner, a, b *Snap) (bool, string) {
 	if m.slashed {
 		return true, "slash"
@@ -230,7 +269,25 @@ func (m *monC10) OnStep(r *Runner, st *Step) {
 		// the asset's share total still counts a validator record that was deleted when x/staking removed the
 		// validator (open finding): the bonded validators' fractions of it no longer add up to one
 		if a := post.Assets[d]; r.StrandedDenoms[d] && a.RewardWeight.IsPositive() && !post.Time.Before(a.RewardStartTime) {
-			why = "shares-of-validator-removed-by-staking"
+			// ... and that explains what every bonded validator carries (anything else is reported as usual)
+			alt := targetsCountingDeletedRecords(post)
+			explained := true
+			for _, v := range post.StValOrder {
+				if !post.StVals[v].IsBonded() {
+					continue
+				}
+				w := alt[v]
+				if w == nil {
+					w = new(big.Rat)
+				}
+				if rabs(rsub(post.ModuleStake(v), w)).Cmp(tol) > 0 {
+					explained = false
+				}
+			}
+			if explained {
+				why = "shares-of-validator-removed-by-staking"
+			}
+			break
 		}
 	}
 	r.Violate("C10.a", "off-target:"+why, fmt.Sprintf("after a block with a %s change validator %s carries %s alliance-minted stake, target %s (native bonded %s)", why, short(worstV), rstr(post.ModuleStake(worstV)), rstr(want), rstr(nativeBonded(post))))
